@@ -8,3 +8,7 @@ import VibeProof.Props.C18
 #print axioms VibeProof.C18.C18_table_data_roundtrip
 #print axioms VibeProof.C18.C18_catalog_roundtrip
 #print axioms VibeProof.C18.C18_file_roundtrip
+#print axioms VibeProof.C18.C18_type_roundtrip_partial
+#print axioms VibeProof.C18.C18_type_roundtrip_instances
+#print axioms VibeProof.C18.C18_type_roundtrip_counterexample
+#print axioms VibeProof.C18.C18_type_counterexamples
